@@ -284,8 +284,37 @@ LawVerdict(c, e) ==
   ELSE IF ~MR!SameElement(D(e.xy), MR!GP(c, x, y)) THEN "value_differs_from_definition"
   ELSE "ok"
 
+(***************************************************************************)
+(* C03 consequences on RECORDED results only: with the library's own        *)
+(* xy = x*y and yx = y*x,  ip + sp = lc + rc,  cp + acp = xy,                *)
+(* 2 cp = xy - yx,  2 acp = xy + yx;  and for HOMOGENEOUS operands (grades   *)
+(* r, s) op / ip / lc / rc / sp are the grade r+s / |r-s| / s-r / r-s / 0     *)
+(* parts of the library's own xy.                                              *)
+(***************************************************************************)
+Law3Verdict(c, e) ==
+  LET D(mv) == DecodeMV(c, e.ring, mv)
+      x == D(e.x) y == D(e.y) xy == D(e.xy) yx == D(e.yx)
+      gx == {c.pop[B] : B \in MR!Supp(x)} gy == {c.pop[B] : B \in MR!Supp(y)}
+      hom == Cardinality(gx) = 1 /\ Cardinality(gy) = 1
+      r == CHOOSE g \in gx : TRUE   s == CHOOSE g \in gy : TRUE
+      Part(g) == IF g < 0 \/ g > c.d THEN MR!MVZero(c.d) ELSE MR!GradePart(c, xy, {g})
+  IN
+  IF e.raised # "" THEN "raised_on_total_operator"
+  ELSE IF ~MR!SameElement(MR!Add(D(e.ip), D(e.sp)), MR!Add(D(e.lc), D(e.rc))) THEN "ip_plus_sp_differs_from_lc_plus_rc"
+  ELSE IF ~MR!SameElement(MR!Add(D(e.cp), D(e.acp)), xy) THEN "cp_plus_acp_differs_from_gp"
+  ELSE IF ~MR!SameElement(MR!Add(D(e.cp), D(e.cp)), MR!Sub(xy, yx)) THEN "twice_cp_differs_from_commutator_of_gp"
+  ELSE IF ~MR!SameElement(MR!Add(D(e.acp), D(e.acp)), MR!Add(xy, yx)) THEN "twice_acp_differs_from_anticommutator_of_gp"
+  ELSE IF hom /\ ~MR!SameElement(D(e.wedge), Part(r + s)) THEN "op_is_not_the_grade_r_plus_s_part_of_gp"
+  ELSE IF hom /\ ~MR!SameElement(D(e.ip), Part(IF r > s THEN r - s ELSE s - r)) THEN "ip_is_not_the_grade_abs_r_minus_s_part_of_gp"
+  ELSE IF hom /\ ~MR!SameElement(D(e.lc), Part(s - r)) THEN "lc_is_not_the_grade_s_minus_r_part_of_gp"
+  ELSE IF hom /\ ~MR!SameElement(D(e.rc), Part(r - s)) THEN "rc_is_not_the_grade_r_minus_s_part_of_gp"
+  ELSE IF hom /\ ~MR!SameElement(D(e.sp), Part(0)) THEN "sp_is_not_the_scalar_part_of_gp"
+  ELSE IF ~MR!SameElement(xy, MR!GP(c, x, y)) THEN "value_differs_from_definition"
+  ELSE "ok"
+
 Verdict(e) ==
   CASE e.kind = "op" -> OpEventVerdict(CC, e)
+    [] e.kind = "law3" -> Law3Verdict(CC, e)
     [] e.kind = "law" -> LawVerdict(CC, e)
     [] e.kind = "cert" -> CertVerdict(CC, e)
     [] e.kind = "resolve" -> (IF e.container # e.expected_container THEN "sequence_operand_did_not_yield_the_sequence_of_results"
